@@ -50,6 +50,7 @@ def LangData.toLR (d : LangData) : LRData :=
                  | [a] => a
                  | _ => .error
                goto := fun s n => (d.gotos.get? (s, n)).getD 0 }
+    actions := acts
     ambiguous := fun s t => (acts s t).length > 1
     visible := fun s => d.visibleSyms.contains s
     tokenCount := d.tokenCount }
@@ -93,7 +94,10 @@ def certifyCase (L : LRData) (old incr : Tree) : CertStats := Id.run do
     match certifyReuse L s r.tree.data.symbol w u.toList (shapeT r.tree 0 true #[]) with
     | .ok _ => st := { st with ok := st.ok + 1 }
     | .stuck _ => st := { st with stuck := st.stuck + 1 }
-    | .ambiguous => st := { st with amb := st.amb + 1 }
+    | .ambiguous =>
+      match certifyReuseGLR L s r.tree.data.symbol w u.toList (shapeT r.tree 0 true #[]) with
+      | .ok _ => st := { st with amb := st.amb + 1 }
+      | _ => st := { st with stuck := st.stuck + 1 }
     | .mismatch m => st := { st with bad := st.bad <|> some m }
   return st
 
@@ -181,7 +185,11 @@ def runCase (s : St) : String :=
         match validateDocument lr 1 sc.root with
         | .ok _ => "ok"
         | .stuck _ => "stuck"
-        | .ambiguous => "glr"
+        | .ambiguous =>
+          match validateDocumentGLR lr 1 sc.root with
+          | .ok _ => "glr_ok"
+          | .mismatch m => "MISMATCH " ++ m
+          | _ => "glr_stuck"
         | .mismatch m => "MISMATCH " ++ m
       else "skipped"
     let cs := certifyCase lr o.root i.root
